@@ -15,7 +15,7 @@ META = {
                   "quick); every case is run through the real rebuild_archive, then every listed source name is read from the target, the target is listed and "
                   "compare_archives is called; TLC validates the recorded run against the specification's oracle (ExpectedOf / ExcludedOf).",
     "level_note": "The model is small (hundreds of states): its weight is as the oracle of trace validation. File contents are compared as SHA-1 tokens. Sources are "
-                  "produced by ArchiveBuilder and must read back themselves (otherwise the case is C01's); no digital-signature files are present in the sources.",
+                  "produced by ArchiveBuilder and must read back themselves (otherwise the case is C01's); (signature) files are present by name only.",
     "technique": "TLA+ state machine + exhaustive TLC check; TLC-enumerated source x option cases replayed on rebuild_archive / compare_archives; TLC trace validation",
     "design_ref": "DESIGN.md section 5, C07",
     "crates": ["c07"],
@@ -24,7 +24,7 @@ META = {
 
 def _ncls(n):
     n = str(n or "")
-    for k in ("plain", "raw", "secret", "fixkey", "big", "empty", "listfile", "attributes"):
+    for k in ("plain", "raw", "secret", "fixkey", "big", "empty", "listfile", "attributes", "signature"):
         if k in n:
             return k
     return n
@@ -36,7 +36,7 @@ def sig(b):
     rb = b.get("rebuild") or {}
     o = rb.get("opts") or rec.get("opts") or {}
     return {"ev": b.get("ev"), "why": str(b.get("why", "")).strip().strip('"'), "ver": "v12" if r.get("ver", 1) <= 2 else "v34",
-            "empty": bool(r.get("empty")), "n": _ncls(rec.get("n")), "comp": o.get("comp", ""), "skipEnc": bool(o.get("skipEnc")), "verify": bool(o.get("verify")),
+            "empty": bool(r.get("empty")), "sigfile": bool(r.get("sigfile")), "skipSig": bool(o.get("skipSig")), "n": _ncls(rec.get("n")), "comp": o.get("comp", ""), "skipEnc": bool(o.get("skipEnc")), "verify": bool(o.get("verify")),
             "res": str(rec.get("res", "")).split(":")[0], "msg": rec.get("msg", "")}
 
 
@@ -82,7 +82,7 @@ def run(ctx, cases_override=None):
         "exhaustive_part": "thorough: full product of source classes x options (minus combinations that list_only / skip_signatures make equivalent); "
                            "quick: all single deviations from the default options and the pairs target x compression, target x verify, skip_encrypted x verify, compression x sector size, compression x verify",
     }
-    assumptions = ["sources are ArchiveBuilder products that read back themselves", "no (signature) files in the sources: skip_signatures is exercised but excludes nothing",
+    assumptions = ["sources are ArchiveBuilder products that read back themselves", "signature files are weak-signature files by name ((signature), 72 bytes, listed); their cryptographic validity is not part of C07",
                    "single process; the file system does not fail"]
     return core.finish(ctx, "model_checking", cov, assumptions, res["bad"], sig_fn=sig, trace=trace)
 
